@@ -52,7 +52,7 @@ def worker(ctx, job):
         "relative-dotdot": ("../target-file", os.path.join(base, "work", "target-file"), os.path.join(base, "work", "sub")),
         "via-symlinked-dir": (os.path.join(base, "sym-dir", "target-file"), os.path.join(base, "real-dir", "target-file"), os.path.join(base, "work")),
     }
-    entries = ["link_to", "link_to_hash", "opts", "opts_hash", "opts_wrong_size", "opts_wrong_integrity", "session", "opts_size_smaller", "opts_size_zero", "session_append"]
+    entries = ["link_to", "link_to_hash", "opts", "opts_hash", "opts_wrong_size", "opts_wrong_integrity", "opts_hash_wrong_size", "opts_hash_wrong_integrity", "session", "opts_size_smaller", "opts_size_zero", "session_append"]
     partials = [0, 1, 8, 9, 16384, "all", "all-into-prefilled-vector"]
     events = ["none", "modify", "truncate", "extend", "remove", "replace"]
     lookups_read = [("read_sync", "read_hash_sync")] + ([("read", "read_hash")] if is_async(flavour) else [])
@@ -70,7 +70,7 @@ def worker(ctx, job):
                 plist = ["all", 0]
             for partial in plist:
                 for event in (events if entry in ("link_to", "session", "opts") else ["none"]):
-                    REJECTED = ("opts_wrong_size", "opts_wrong_integrity", "opts_size_smaller", "opts_size_zero", "session_append")
+                    REJECTED = ("opts_wrong_size", "opts_wrong_integrity", "opts_hash_wrong_size", "opts_hash_wrong_integrity", "opts_size_smaller", "opts_size_zero", "session_append")
                     for pre in ((False, True) if (fname == "absolute" and entry in ("link_to", "link_to_hash") and event in ("none", "modify")) else
                                 (False, "earlier-link") if (fname in ("absolute", "relative") and entry in REJECTED) else (False,)):
                         fsutil.wipe(cache)
@@ -85,7 +85,7 @@ def worker(ctx, job):
                         elif pre:
                             wr.do_write(srv, cache, side="s", entry="hash", n=n, tag=131)
                         sig0 = stat_sig(real)
-                        keyed = entry not in ("link_to_hash", "opts_hash")
+                        keyed = entry not in ("link_to_hash", "opts_hash", "opts_hash_wrong_size", "opts_hash_wrong_integrity")
                         case = {"flavour": flavour, "side": side, "n": n, "path_form": fname, "entry": entry, "partial_read": partial, "event": event, "preexisting": pre}
                         replay = {"engine": "seqx", "case": case}
                         res["evals"] += 1
@@ -103,13 +103,13 @@ def worker(ctx, job):
                                 req["key"] = KEY
                             if entry.startswith("opts"):
                                 o = {}
-                                if entry == "opts_wrong_size":
+                                if entry in ("opts_wrong_size", "opts_hash_wrong_size"):
                                     o["size"] = n + 1
                                 elif entry == "opts_size_smaller":
                                     o["size"] = n - 1
                                 elif entry == "opts_size_zero":
                                     o["size"] = 0
-                                elif entry == "opts_wrong_integrity":
+                                elif entry in ("opts_wrong_integrity", "opts_hash_wrong_integrity"):
                                     o["integrity"] = ctx.sri("sha256", data + b"x")
                                 elif entry == "opts":
                                     o["size"] = n
@@ -145,8 +145,8 @@ def worker(ctx, job):
                             continue
                         if entry != "session_append" and (stat_sig(real) != sig0 or open(real, "rb").read() != data):
                             V.violation(res, sig + ":target-modified", "linking touched the target (inode/mtime/size %s -> %s)" % (sig0, stat_sig(real)), replay)
-                        if entry in ("opts_wrong_size", "opts_wrong_integrity", "opts_size_smaller", "opts_size_zero", "session_append"):
-                            want = "IntegrityError" if entry == "opts_wrong_integrity" else "SizeMismatch"
+                        if entry in REJECTED:
+                            want = "IntegrityError" if entry.endswith("wrong_integrity") else "SizeMismatch"
                             if rep.get("err", {}).get("variant") != want:
                                 V.violation(res, sig + ":got-" + cls, "wrong declaration must be rejected with %s, got %r" % (want, rep), replay)
                             m = srv.call({"op": "metadata_sync", "cache": cache, "key": KEY})
